@@ -462,7 +462,10 @@ def translate() -> tuple[str, dict]:
     helpers = {k: v for k, v in raw_methods.items() if k not in ('__init__', '_resolve_path', '__repr__')}
     inside_raw = {id(x) for x in ast.walk(classes['RawFileSystem'])}
     used_outside = {x.attr for x in ast.walk(tree) if isinstance(x, ast.Attribute) and id(x) not in inside_raw}
-    called_inside = {x.func.attr for x in ast.walk(classes['RawFileSystem']) if isinstance(x, ast.Call)
+    # (calls made by the methods interpreted below: a helper used only by _resolve_path / __init__, which the guard
+    # translator reads, is interpreted on its own here so that an OS call inside it is still a site)
+    called_inside = {x.func.attr for fn in _methods(classes['RawFileSystem']) if fn.name not in ('__init__', '__repr__', '_resolve_path')
+                     for x in ast.walk(fn) if isinstance(x, ast.Call)
                      and isinstance(x.func, ast.Attribute) and isinstance(x.func.value, ast.Name) and x.func.value.id == 'self'}
     inherited = {f.name for f in _methods(classes['FileSystem'])}
     # a private helper (not part of the FileSystem protocol, never mentioned outside the class) whose every use is an
